@@ -158,6 +158,10 @@ fn gen_case(c: &mut Chooser) -> Case {
     if sub {
         tags.push("config-in-subdirectory".into());
     }
+    // where the CLI is started: the project root, or two levels down (the configuration is then named through `..`)
+    if c.flag("cli.started-in-a-subdirectory") {
+        tags.push("cwd:src/deep".into());
+    }
     if EXTS[ext].1 {
         y.push_str("      emitSchemaRuntime: true\n");
     }
@@ -405,7 +409,9 @@ fn check_case(rep: &Reporter, case: &Case, c: &Chooser, ctr: &Ctr) {
     let mut p = Project::default();
     p.files = case.files.clone();
     let cfg_path = if case.files.contains_key("cfg/graphql.config.yaml") { "cfg/graphql.config.yaml" } else { "graphql.config.yaml" };
-    let args: Vec<String> = ["--config-file", cfg_path, "--output-format", "json", "generate"].iter().map(|s| s.to_string()).collect();
+    let cwd_rel = if case.tags.iter().any(|t| t == "cwd:src/deep") { "src/deep" } else { "" };
+    let cfg_arg = if cwd_rel.is_empty() { cfg_path.to_string() } else { format!("../../{cfg_path}") };
+    let args: Vec<String> = ["--config-file", cfg_arg.as_str(), "--output-format", "json", "generate"].iter().map(|s| s.to_string()).collect();
     if case.tags.iter().any(|t| t == "regenerated-after-edit") {
         // first generation: the same files without their first (comment) line
         let mut first = Project::default();
@@ -414,7 +420,7 @@ fn check_case(rep: &Reporter, case: &Case, c: &Chooser, ctr: &Ctr) {
             first.files.insert(k.clone(), text);
         }
         cli::materialize(&dir, &first);
-        let r1 = cli::run(&dir, &args, &[], Duration::from_secs(30));
+        let r1 = cli::run_in(&dir, cwd_rel, &args, &[], Duration::from_secs(30));
         ctr.runs.fetch_add(1, Ordering::Relaxed);
         if r1.code != Some(0) {
             rep.report(Violation { key: "e2e.generate_fails_on_valid_project".into(), what: format!("the first generation exits with {:?} on a valid project", r1.code), case: json!({"layer": "e2e", "tags": case.tags, "files": first.files, "stdout": r1.stdout}) });
@@ -424,7 +430,7 @@ fn check_case(rep: &Reporter, case: &Case, c: &Chooser, ctr: &Ctr) {
     } else {
         cli::materialize(&dir, &p);
     }
-    let r = cli::run(&dir, &args, &[], Duration::from_secs(30));
+    let r = cli::run_in(&dir, cwd_rel, &args, &[], Duration::from_secs(30));
     ctr.runs.fetch_add(1, Ordering::Relaxed);
     let case_json = |extra: J| json!({"layer": "e2e", "tags": case.tags, "config": case.yaml, "picks": c.picks(), "deviations": c.deviation_labels(), "files": case.files, "detail": extra});
     if r.code != Some(0) {
